@@ -13,7 +13,7 @@ CHECKS = {
             "DESIGN.md §4 C01", "E1-stateless"),
     "C02": ("exploration",
             "bounded exhaustive enumeration of (upstream answer section x rule set x configuration x query type) through the real pipeline with a scripted upstream, against a first-blocked-record reference",
-            "All answer sections of length <=3 (thorough <=4) over 15 record kinds with CNAME owner chaining, the offending record at every position, x 10 rule sets (names, IPv4/IPv6 literals, exceptions, $important, allow-listed/excepted queried name, hosts-style, $dnstype) x 5 modes + 5 flag variants + 1 variant with an NXDOMAIN upstream answer carrying the section + 2 variants with the proxy's answer cache on (each question asked twice, the cached response judged) x 5 query types; blocked => the mode's response for the query's type without upstream data and a log entry carrying the original answer; else the upstream answer unchanged.",
+            "All answer sections of length <=3 (thorough <=4) over 16 record kinds with CNAME owner chaining, the offending record at every position, x 10 rule sets (names, IPv4/IPv6 literals, exceptions, $important, allow-listed/excepted queried name, hosts-style, $dnstype) x 5 modes + 5 flag variants + 1 variant with an NXDOMAIN upstream answer carrying the section + 2 variants with the proxy's answer cache on (each question asked twice, the cached response judged) x 5 query types; blocked => the mode's response for the query's type without upstream data and a log entry carrying the original answer; else the upstream answer unchanged.",
             "single-rule matching delegated to urlfilter; with AAAA disabled and response filtering applicable HTTPS records are accepted with or without ipv6hint (where it is not applicable the answer must be identical); cached answers are compared without TTL.",
             "DESIGN.md §4 C02", "E1-stateless"),
     "C03": ("exploration",
